@@ -256,6 +256,14 @@ func (c *diskCache) Put(ctx context.Context, kind cache.EntryKind, hash string, 
 	}
 
 	if kind == cache.CAS && size == 0 && hash == emptySha256 {
+		// The empty blob is never stored, but what is uploaded under its
+		// digest must be empty too.
+		if r != nil {
+			var b [1]byte
+			if n, _ := r.Read(b[:]); n > 0 {
+				return badReqErr("sizes don't match. Expected 0, found more data")
+			}
+		}
 		return nil
 	}
 
